@@ -3,10 +3,14 @@ from . import treechecks
 
 
 def run(ctx):
-    return treechecks.run(ctx, "C01", ["MlsVerif.Props.C01"], "C01,C03,C11",
+    return treechecks.run(ctx, "C01", ["MlsVerif.Props.C01", "MlsVerif.Props.C01Group"], "C01,C03,C11",
                           "members disagree after a commit (context, tree, roster, authenticator, exporter), an epoch moved by other than one, or a member cannot decrypt a peer",
                           ["agreement of secrets is proved as: same tree (receivers_compute_committers_tree) + the receiver opens the committer's seal (receiver_opens_committers_seal) + "
-                           "deterministic derivations (chain_meets, epoch_secrets_function, C13); the real HPKE open and the transcript chain are checked by the oracle"])
+                           "deterministic derivations (chain_meets, epoch_secrets_function, C13); the real HPKE open and the transcript chain are checked by the oracle",
+                           "composed over whole histories in MlsVerif.Props.C01Group (symbolic secrets on top of the tree-layer world: agreement for every reachable world, every receiver reaches "
+                           "the committer's commit secret, no entitled party gets stuck); tie: `g.commit` / `g.classes` / `g.slots` rows — the model replays every history as a world of parties and "
+                           "must print the same tree and the same partition of all parties (members and removed members' retained groups) by epoch secret as the real groups' epoch authenticators"],
+                          also=[(None, "group", "hist-group")])
 
 
 def replay(ctx, path):
